@@ -28,8 +28,9 @@ attribute [-simp] List.getD_eq_getElem?_getD
 def witnessGraph : Csr Rat :=
   { nRow := 5, nCol := 5, indptr := #[0,3,4,5,7,8], indices := #[1,2,3,0,0,0,4,3], data := #[10,1,1,10,1,1,4,4] }
 
-/-- ★ **vote_fixed_point** (kernel).  If a sweep of `vote_update` over distinct in-range nodes returns the
-    labels it was given (non-negative weights), then every updated node with a labelled neighbour holds a
+/-- ★ **vote_fixed_point** (kernel; about the nodes of the `index` argument — that these are all the nodes
+    without a given label is `propagation_fixed_point`).  If a sweep of `vote_update` over distinct in-range nodes returns the
+    labels it was given (non-negative weights), then every node of `index` with a labelled neighbour holds a
     non-negative label, carried by one of its neighbours, whose total vote among its neighbours is maximal. -/
 theorem vote_fixed_point (c : Csr Rat) (labels : List Int) (index : List Nat)
     (hw : ∀ p, 0 ≤ c.data.getD p 0) (hnd : index.Nodup) (hi : ∀ i ∈ index, i < labels.length)
@@ -63,22 +64,64 @@ theorem pinned_vote_out_of_bounds :
       [7,9] [0] = none := by
   refine ⟨by decide +kernel, by decide +kernel⟩
 
-/-- ★ **vote_fixed_point** (`Propagation.fit`).  When the loop of `fit` stops on labels that a further sweep
-    leaves unchanged — in particular when it stops *because* a sweep changed nothing —, every non-seed node
-    with a labelled neighbour holds a label of maximal total vote among its neighbours: edge weights when
-    `weighted`, counts otherwise (`withWeights` replaces the data by ones). -/
+/-- ★ **vote_fixed_point** (`Propagation.fit`).  When `fit` returns labels that a further sweep leaves unchanged
+    — in particular when the loop stopped *because* a sweep changed nothing, see `propagation_stop_reason` and
+    `sweep_changes_nothing` —, **every** node without a given label (every node at all when no label or a single
+    class is given) that has a labelled neighbour holds a non-negative label, carried by a neighbour, whose total
+    vote among its neighbours is maximal: edge weights when `weighted`, counts otherwise (`withWeights` replaces
+    the data by ones).  The node order is any permutation of the nodes to update (`SigmaOK`: `k` distinct positions
+    below `k`), so no node is left out (`reorder_complete`). -/
 theorem propagation_fixed_point (c : Csr Rat) (hw : ∀ p, 0 ≤ c.data.getD p 0) (values : List Int)
     (a : Vote.PropArgs) (fuel : Nat) (hsig : Vote.SigmaOK a.sigma (Vote.instantiateVars values).2.length)
     (l : List Int) (t : Nat) (h : Vote.fit c values a fuel = some (l, t))
     (hstable : Vote.voteUpdate (Vote.withWeights c a.weighted) l (Vote.start values a.sigma).2 = l) :
-    Spec.fixedPointOK (Vote.withWeights c a.weighted) l (Vote.start values a.sigma).2 = true := by
+    ∀ i, i < values.length → (Vote.singleClass values = true ∨ values.getD i (-1) < 0) →
+      Spec.hasLabelledNeighbour (Vote.withWeights c a.weighted) l i = true →
+      Spec.localMax (Vote.withWeights c a.weighted) l i = true := by
   have hinv := Vote.fitInv_result c hw values a fuel hsig l t h
-  apply vote_fixed_point _ l _ (Vote.withWeights_nonneg c a.weighted hw)
-  · exact Vote.reorder_nodup _ _ (Vote.instantiateVars_index_nodup values) hsig
-  · intro i hi
-    rw [hinv.len]
-    exact Vote.instantiateVars_index_lt values i (Vote.mem_reorder _ _ hsig i hi)
-  · exact hstable
+  have hfp : Spec.fixedPointOK (Vote.withWeights c a.weighted) l (Vote.start values a.sigma).2 = true := by
+    apply vote_fixed_point _ l _ (Vote.withWeights_nonneg c a.weighted hw)
+    · exact Vote.reorder_nodup _ _ (Vote.instantiateVars_index_nodup values) hsig
+    · intro i hi
+      rw [hinv.len]
+      exact Vote.instantiateVars_index_lt values i (Vote.mem_reorder _ _ hsig i hi)
+    · exact hstable
+  intro i hi hns hlab
+  have hmem : i ∈ (Vote.start values a.sigma).2 :=
+    Vote.reorder_complete _ _ hsig i ((Vote.mem_instantiateVars_index values i).mpr ⟨hi, hns⟩)
+  unfold Spec.fixedPointOK at hfp
+  have := List.all_eq_true.mp hfp i hmem
+  rw [hlab] at this
+  simpa using this
+
+/-- **why the loop stopped** (`Propagation.fit`): the result is the `t`-th iterate of the sweep, and either the
+    allowed number of sweeps is exhausted (`n_iter = t`) or the configuration `labels[index_remain]` of the result
+    already occurred after an earlier sweep (`d < t`); `d = t - 1` is "the last sweep changed nothing". -/
+theorem propagation_stop_reason (c : Csr Rat) (values : List Int) (a : Vote.PropArgs) (fuel : Nat)
+    (l : List Int) (t : Nat) (h : Vote.fit c values a fuel = some (l, t)) :
+    l = (fun l => Vote.voteUpdate (Vote.withWeights c a.weighted) l (Vote.start values a.sigma).2)^[t]
+        (Vote.start values a.sigma).1 ∧
+    (a.nIter = some t ∨ ∃ d, d < t ∧
+      Vote.config ((fun l => Vote.voteUpdate (Vote.withWeights c a.weighted) l (Vote.start values a.sigma).2)^[d]
+        (Vote.start values a.sigma).1) (Vote.start values a.sigma).2 = Vote.config l (Vote.start values a.sigma).2) := by
+  rw [Vote.fit_eq] at h
+  obtain ⟨_, h2, h3⟩ := Vote.propLoop_stop _ _ fuel a.nIter 0 [] _ l t h
+  simp only [Nat.sub_zero] at h2 h3
+  refine ⟨h2, ?_⟩
+  rcases h3 with ⟨m, hm, ht⟩ | hk | hd
+  · left
+    rw [hm, ht]
+    simp
+  · cases hk
+  · exact Or.inr hd
+
+/-- a sweep that leaves `labels[index_remain]` unchanged leaves all labels unchanged, and so does every further
+    sweep: this is the hypothesis `hstable` of `propagation_fixed_point` when the loop stops on that test. -/
+theorem sweep_changes_nothing (c : Csr Rat) (l' : List Int) (index : List Nat)
+    (h : Vote.config (Vote.voteUpdate c l' index) index = Vote.config l' index) :
+    Vote.voteUpdate c (Vote.voteUpdate c l' index) index = Vote.voteUpdate c l' index := by
+  have := (Vote.voteUpdate_config_iff c l' index).mp h
+  rw [this, this]
 
 /-- ★ **seeds_kept** (Propagation).  With at least two classes among the given labels, every seed keeps its
     label, whatever the number of sweeps, the node order and the weighting. -/
@@ -112,13 +155,13 @@ example : Vote.fit witnessGraph [-1,0,1,1,-1] { sigma := some [1,0] } 10 = some 
   refine ⟨by decide +kernel, ?_, by decide +kernel, by decide +kernel⟩
   intro s hs
   cases hs
-  exact ⟨by decide, by decide +kernel⟩
+  exact ⟨by decide, by decide +kernel, by decide +kernel⟩
 
 /-- ★ **Propagation from the raw input** (square or biadjacency matrix, seeds as array / list / dict in `labels`,
     `labels_row`, `labels_col`).  `get_adjacency_values` hands on non-negative weights (block adjacency for a
     bipartite input), so for whatever `fit` returns: with at least two classes every seed keeps its label; every
-    label is one of the starting labels; and if a further sweep changes nothing, every updated node with a
-    labelled neighbour holds a label of maximal total vote. -/
+    label is one of the starting labels; and if a further sweep changes nothing, every node without a given label
+    that has a labelled neighbour holds a label of maximal total vote. -/
 theorem propagation_from_input (c : Csr Rat) (hw : ∀ p, 0 ≤ c.data.getD p 0) (v r cc : Seeds) (rt : Routed)
     (hrt : adjacencyValues c false v r cc = .ok rt) (a : Vote.PropArgs) (fuel : Nat)
     (hsig : Vote.SigmaOK a.sigma (Vote.instantiateVars rt.values).2.length)
@@ -126,7 +169,9 @@ theorem propagation_from_input (c : Csr Rat) (hw : ∀ p, 0 ≤ c.data.getD p 0)
     (Vote.singleClass rt.values = false → ∀ i, 0 ≤ rt.values.getD i (-1) → l.getD i (-1) = rt.values.getD i (-1)) ∧
     (l.length = rt.values.length ∧ ∀ x ∈ l, x ∈ (Vote.instantiateVars rt.values).1) ∧
     (Vote.voteUpdate (Vote.withWeights rt.adj a.weighted) l (Vote.start rt.values a.sigma).2 = l →
-      Spec.fixedPointOK (Vote.withWeights rt.adj a.weighted) l (Vote.start rt.values a.sigma).2 = true) := by
+      ∀ i, i < rt.values.length → (Vote.singleClass rt.values = true ∨ rt.values.getD i (-1) < 0) →
+        Spec.hasLabelledNeighbour (Vote.withWeights rt.adj a.weighted) l i = true →
+        Spec.localMax (Vote.withWeights rt.adj a.weighted) l i = true) := by
   have hw' := routed_nonneg c hw false v r cc rt hrt
   exact ⟨fun hs => propagation_seeds_kept rt.adj hw' rt.values a fuel hsig hs l t h,
     propagation_labels_in_seed_set rt.adj hw' rt.values a fuel hsig l t h,
